@@ -570,6 +570,40 @@ def run(out, tier, seed, proof):
                               {"op": "build", "tasks": ts, "cfg": dict(PLAIN), "faults": {"5": first}},
                               {"op": "build", "tasks": ts, "cfg": dict(PLAIN), "faults": {}}]})
     nb, nh = run_phistories(out, cases, seed, "C18", [o_c18, o_selection, o_once, o_order])
+    # generated tasks named by their POSITION in the list the generator receives (no explicit id, the idiom of the
+    # documentation): rebuilt in other interpreters (other hash seeds) with nothing changed, none of them runs again
+    import textwrap
+    pos = Path(tempfile.mkdtemp(prefix="verif_c18pos_"))
+    try:
+        (pos / "src").mkdir()
+        for k, nm in enumerate("abcdefg"):
+            (pos / "src" / f"{nm}.in").write_text(str(k))
+        (pos / "pyproject.toml").write_text("[tool.pytask.ini_options]\n")
+        (pos / "task_pos.py").write_text(textwrap.dedent("""
+            from pathlib import Path
+            from typing import Annotated
+            from pytask import DirectoryNode, Product, task
+            ROOT = Path(__file__).parent
+            @task(is_generator=True)
+            def task_gen(files: Annotated[list[Path], DirectoryNode(root_dir=ROOT / "src", pattern="*.in")]):
+                for f in files:
+                    @task
+                    def task_copy(src: Path = f, dst: Annotated[Path, Product] = ROOT / "out" / (f.stem + ".txt")):
+                        dst.parent.mkdir(exist_ok=True)
+                        dst.write_text(src.read_text())
+        """))
+        for i, hs in enumerate([1, 2, 3, 4] if tier == "quick" else [1, 2, 3, 4, 5, 6, 7, 8]):
+            r = run_impl_worker("impl_rebuild.py", {"paths": [str(pos)]}, hashseed=hs)
+            out.case({"scenario": "position-based ids", "build": i, "hashseed": hs}, nontrivial=True)
+            out.count("positional_builds")
+            ran = [t for t, o in r["reports"] if o == "SUCCESS" and t.startswith("task_copy")]
+            if r["exit"] != 0 or (i == 0 and len(ran) != 7):
+                out.disagreement("the position-based generator scenario did not build", {"build": i, "result": r})
+            if i > 0 and ran:
+                out.violation("generated tasks were executed again in another interpreter although nothing changed (the order of the files a generator receives is not stable)",
+                              {"build": i, "hashseed": hs, "executed_again": ran})
+    finally:
+        shutil.rmtree(pos, ignore_errors=True)
     run_id_scenarios(out, rng, 4 if tier == "quick" else 40)
     out.coverage["builds_compared"] = nb
     out.coverage["traces_validated_against_impl"] = nh
